@@ -179,7 +179,12 @@ def run_check(pid, tier, seed, wall_cap=None, out_evidence=True, verbose=True):
     harness_errors, inconclusive, violations, known_hits = [], [], [], []
     for a in aggs:
         if a.error:
+            # (violations found before the error are kept: each was replayed concretely and is re-confirmed below in a
+            # fresh interpreter; hidden state in the code under test typically shows up as both)
             harness_errors.append((a.q.qid, a.error))
+            for v in a.violations:
+                k = match_known(known, pid, v)
+                (known_hits if k else violations).append((v, k))
             continue
         if a.inconclusive:
             inconclusive.append((a.q.qid, a.inconclusive))
